@@ -8,11 +8,11 @@ from ..faults import FaultDB
 from ..hexcommon import item_lists, literal_keys, resolve_val, valspecs
 from ..ref.mpt import RefTrie
 from ..ref.rlp_hp import hp, rlp_encode
-from ..util import Info, Raised, expect, expect_eq, impl, nibbles_of
+from ..util import Info, Raised, cm_enter, cm_exit, expect, expect_eq, impl, nibbles_of
 
 ID = "C08"
 LEVEL = "exploration"
-BUDGET = {"quick": 5000, "thorough": 400000}
+BUDGET = {"quick": 2400, "thorough": 300000}
 RULE = (
     "case = (mapping of 1-10 items incl. prefix-related keys, branch values, embedded and "
     "hashed nodes; extra nibble paths). For each mapping the paths are: every nibble "
@@ -26,7 +26,9 @@ RULE = (
     "a simulated node rebuilt independently (trimmed suffix / extension path, raw HP "
     "bytes). traverse_from(node@prefix, segment) == traverse(prefix+segment) with "
     "nibbles_traversed rebased, db reads <= child hops on the segment; root_node == "
-    "traverse(()). Non-trivial = the path set of the case hit node, blank and partial "
+    "traverse(()). The same trie object is observed again after up to two later steps (a "
+    "committed squash_changes batch, direct ops, root_hash pointed back at an earlier "
+    "root). Non-trivial = the path set of the case hit node, blank and partial "
     "outcomes incl. a partial inside a leaf AND inside an extension. Distinct = "
     "canonical JSON."
 )
@@ -47,6 +49,11 @@ def strategy(tier):
         {
             "items": item_lists(tier, 0, n_items),
             "extra": st.lists(st.lists(st.integers(0, 15), max_size=14), max_size=4),
+            "later": st.lists(st.one_of(
+                st.tuples(st.just("batch"), item_lists(tier, 0, 3), st.lists(st.integers(0, 40), max_size=2)),
+                st.tuples(st.just("direct"), item_lists(tier, 0, 2), st.lists(st.integers(0, 40), max_size=2)),
+                st.tuples(st.just("reroot"), st.integers(0, 5)),
+            ), max_size=2),
             "pick": st.integers(0, 1000),
         }
     )
@@ -161,6 +168,11 @@ def _hops_from(node, rem):
 
 
 def run_case(case):
+    """
+    The same trie OBJECT is observed at several points of a history: after the initial
+    build, after a committed squash_changes batch, after direct ops, and after its
+    root_hash was pointed back at an earlier root.
+    """
     info = Info()
     db = FaultDB()
     t = impl("construct", HexaryTrie, db)
@@ -169,6 +181,42 @@ def run_case(case):
         v = resolve_val(vs, k)
         impl("set-never-raises", t.set, k, v)
         model[k] = v
+    roots = [(bytes(t.root_hash), dict(model))]
+    _observe(t, db, model, case, info)
+    for step in case.get("later", []):
+        kind = step[0]
+        if kind == "reroot":
+            root, old = roots[step[1] % len(roots)]
+            t.root_hash = root
+            model = dict(old)
+            info.label("later-reroot")
+        else:
+            target, cm = t, None
+            if kind == "batch":
+                cm = impl("squash_changes", t.squash_changes)
+                target = cm_enter("squash_changes", cm)
+            for k, vs in step[1]:
+                v = resolve_val(vs, k)
+                impl("set-never-raises", target.set, k, v)
+                model[k] = v
+            for i in step[2]:
+                if model:
+                    k = sorted(model)[i % len(model)]
+                    impl("delete-never-raises", target.delete, k)
+                    del model[k]
+            if cm is not None:
+                cm_exit("squash_changes-exit", cm)
+            info.label("later-" + kind)
+        roots.append((bytes(t.root_hash), dict(model)))
+        _observe(t, db, model, case, info)
+    need = {"outcome-blank", "outcome-partial-leaf", "outcome-partial-ext"}
+    info.nontrivial = need <= info.labels and any(
+        lab in info.labels for lab in ("outcome-node-branch", "outcome-node-ext", "outcome-node-leaf")
+    )
+    return info
+
+
+def _observe(t, db, model, case, info):
     ref = RefTrie(model)
     expect_eq("root-precondition", bytes(t.root_hash), ref.root_hash, "root (precondition)")
     model_nibs = [nibbles_of(k) for k in model]
@@ -251,8 +299,3 @@ def run_case(case):
             expect("one-read-per-child-hop", reads <= hops,
                    lambda: f"traverse_from(@{prefix}, {segment}) read the db {reads} times for {hops} child hops")
             info.count("splits")
-    need = {"outcome-blank", "outcome-partial-leaf", "outcome-partial-ext"}
-    info.nontrivial = need <= info.labels and any(
-        lab in info.labels for lab in ("outcome-node-branch", "outcome-node-ext", "outcome-node-leaf")
-    )
-    return info
